@@ -305,7 +305,14 @@ impl HistRun
                     if a != b
                     {
                         let g = self.random_goal(rng);
-                        self.queue.extend(vec![HOp::Build(None), HOp::SwapLeaves(a.clone(), b.clone()), HOp::Build(None), HOp::Clean(g), HOp::SwapLeaves(a, b), HOp::Build(None)]);
+                        if rng.chance(1, 2)
+                        {
+                            self.queue.extend(vec![HOp::Build(None), HOp::SwapLeaves(a.clone(), b.clone()), HOp::Build(None), HOp::Clean(g), HOp::SwapLeaves(a, b), HOp::Build(None)]);
+                        }
+                        else
+                        {
+                            self.queue.extend(vec![HOp::Build(None), HOp::SwapLeaves(a.clone(), b.clone()), HOp::Build(None), HOp::SwapLeaves(a, b), HOp::Build(None)]);
+                        }
                     }
                 },
                 5 if leaves.len() > 0 && targets.len() > 0 =>
